@@ -128,7 +128,11 @@ func checkC01(c *Ctx) {
 	c.Rule("C01.R10.conditional-decls", "an identifier of the generated code whose declarations are all conditional is used only under conditions that imply one of them", 5)
 	checkConditionalDecls(c, "C01.R10.conditional-decls", ev, ev.F.Names())
 
-	checkCallSignature(c, "C01.R12.call-signature", ev)
+	if c.Contrib == "" {
+		// the contributed template sets replace the client and server templates only: the CLI templates are
+		// written against the standard client (`generate cli --template stratoscale` is not a supported pairing)
+		checkCallSignature(c, "C01.R12.call-signature", ev)
+	}
 	checkFoldedPatterns(c, "C01.R13.folded-names", gen)
 	checkVersionedImports(c, "C01.R14.versioned-imports", gen)
 
